@@ -53,6 +53,7 @@ func RunC16(s *kernel.Sim) *World {
 	}
 	absent := "lk/absent"
 	w.Cache = w.MemCache("")
+	w.UseRealClient = t.Bool(1, 3)
 	cfg := w.BaseConfig(declared)
 	cfg.AllowLookup = allow
 	cfg.Cache = w.Cache
@@ -123,7 +124,7 @@ func RunC16(s *kernel.Sim) *World {
 		}
 		callers = append(callers, c)
 	}
-	w.Tracef("config allow=%v declared=%q mode=%d callers=%d", allow, declared, mode, nCallers)
+	w.Tracef("config allow=%v declared=%q mode=%d callers=%d realClient=%v", allow, declared, mode, nCallers, w.UseRealClient)
 	for _, c := range callers {
 		w.Tracef("caller %d entry=%d names=%q deadline=%v cancelAt=%v", c.id, c.entry, c.names, c.deadline, c.cancelAt)
 	}
@@ -453,7 +454,7 @@ func RunC16(s *kernel.Sim) *World {
 				w.Fail("failed-install", "every lookup of %q failed but Secret(%q) is non-nil", n, n)
 			}
 		}
-		if success && allDone() {
+		if toldOK && allDone() {
 			if h := st.Secret(n); h == nil {
 				w.Fail("handle", "a lookup of %q succeeded but Secret(%q) is nil", n, n)
 			}
